@@ -412,11 +412,10 @@ func (a *App) Run(w Widget) error {
 					return err
 				}
 			case vaxis.FocusIn:
-				cmd, err := w.HandleEvent(MouseEnter{}, TargetPhase)
-				if err != nil {
-					return err
-				}
-				a.handleCommand(cmd)
+				// We don't know where the mouse is until it reports
+				// again: the next mouse event delivers the
+				// MouseEnter events, paired with the MouseLeave
+				// events of the hit list
 			case vaxis.FocusOut:
 				mh.mouse = nil
 				err := mh.mouseExit(a)
